@@ -27,6 +27,9 @@ struct SinkState {
     log: Vec<(usize, usize)>,
     seeks: usize,
     flushes: usize,
+    /// 0: every write is accepted whole; m > 0: a write call accepts at most 1 + (call number * 5) % m bytes (a pipe,
+    /// a socket, a full disk buffer: `write` may return a short count and the caller must re-offer the rest)
+    short: usize,
 }
 #[derive(Clone)]
 struct Sink(Rc<RefCell<SinkState>>);
@@ -34,6 +37,8 @@ impl Write for Sink {
     fn write(&mut self, buf: &[u8]) -> std::io::Result<usize> {
         let mut s = self.0.borrow_mut();
         let pos = s.pos;
+        let n = if s.short > 0 && !buf.is_empty() { buf.len().min(1 + (s.log.len() * 5) % s.short) } else { buf.len() };
+        let buf = &buf[..n];
         if s.data.len() < pos + buf.len() { s.data.resize(pos + buf.len(), 0); }
         s.data[pos..pos + buf.len()].copy_from_slice(buf);
         s.pos += buf.len();
@@ -81,6 +86,7 @@ fn main() {
     let mut rng = Rng::new(seed, 0xC14);
     let kinds = all_kinds();
     let mut cases_prefix = 0usize;
+    let mut n_short = 0usize;
     let (mut n_enc, mut n_prefix, mut n_boundaries, mut n_byte_exhaustive, mut nonappend, mut cases) = (0usize, 0usize, 0usize, 0usize, 0usize, 0usize);
     let mut by_seek: BTreeMap<String, usize> = BTreeMap::new();
     let mut by_writer: BTreeMap<String, usize> = BTreeMap::new();
@@ -108,7 +114,11 @@ fn main() {
         let mode = rng.below(3);
         let chunks = chunking(&mut rng, total_units, mode, unit);
         let state = Rc::new(RefCell::new(SinkState::default()));
-        let input: Vec<(&str, String)> = vec![("cfg", cfg.json()), ("kind", esc(kind)), ("writer", esc(&format!("{:?}", wr))), ("pcm", ints(&pcm[..pcm.len().min(4000)])), ("chunks", ints(&chunks[..chunks.len().min(40)]))];
+        // every fourth stream goes into a sink that accepts short counts (small streams only: one call per few bytes)
+        let short = if i % 4 == 3 && !big { *rng.pick(&[1usize, 2, 3, 7, 13]) } else { 0 };
+        state.borrow_mut().short = short;
+        if short > 0 { n_short += 1; }
+        let input: Vec<(&str, String)> = vec![("cfg", cfg.json()), ("short_write_max", short.to_string()), ("kind", esc(kind)), ("writer", esc(&format!("{:?}", wr))), ("pcm", ints(&pcm[..pcm.len().min(4000)])), ("chunks", ints(&chunks[..chunks.len().min(40)]))];
         clear_panic_loc();
         // everything up to (not including) finalize: the writer object is leaked, so neither
         // finalize nor Drop runs
@@ -231,7 +241,7 @@ fn main() {
         "{}",
         obj(&[
             ("t", esc("stat")), ("profile", esc(profile())), ("encodes", n_enc.to_string()), ("prefixes_decoded", n_prefix.to_string()), ("write_call_boundaries", n_boundaries.to_string()),
-            ("streams_with_every_byte_prefix", n_byte_exhaustive.to_string()), ("not_append_only", nonappend.to_string()), ("by_seek_policy", m(&by_seek)), ("by_writer", m(&by_writer)),
+            ("streams_with_every_byte_prefix", n_byte_exhaustive.to_string()), ("streams_into_short_write_sink", n_short.to_string()), ("not_append_only", nonappend.to_string()), ("by_seek_policy", m(&by_seek)), ("by_writer", m(&by_writer)),
             ("prefix_ends", m(&ends)), ("cases_emitted", out.cases.to_string()), ("viols", out.viols.to_string()), ("viol_keys", out.counts()),
         ])
     );
